@@ -17,6 +17,11 @@ type HistOpts struct {
 	MaxOps       int
 	Profile      ValueProfile
 	NoClose      bool
+	// LargePct: percent of histories drawn from the "large" class instead: page
+	// size 100..1200, batches up to 3 pages, up to 4000 records, sometimes long
+	// strings. It reaches what small files cannot: level runs beyond 63
+	// bit-packed groups, snappy blocks beyond 64 KiB, buffer growth.
+	LargePct int
 }
 
 // GenHistory draws a writer history from the batch-shape grammar: batch sizes
@@ -29,6 +34,20 @@ func GenHistory(r *Rng, o HistOpts) *WriterSpec {
 	w.Page = r.Range(o.PageMin, o.PageMax)
 	if o.BigPagePct > 0 && r.Intn(100) < o.BigPagePct {
 		w.Page = 100
+	}
+	if o.LargePct > 0 && r.Intn(100) < o.LargePct {
+		w.Page = r.Range(100, 1200)
+		o.MaxOps = 4000
+		if o.MaxBatches > 3 {
+			o.MaxBatches = 3
+		}
+		if o.MinBatches < 1 {
+			o.MinBatches = 1
+		}
+		if r.Chance(1, 3) {
+			o.Profile.MaxStr = 200
+		}
+		w.Large = true
 	}
 	sh := GetShape(w.Shape)
 	nb := r.Range(o.MinBatches, o.MaxBatches)
